@@ -3318,3 +3318,84 @@ breaker('C05', 'undo-abort-hands-the-raw-transaction', 'C05.R8', DBPY,
         '''            transaction = transaction.data(self)
             self._storage.tpc_abort(transaction)''',
         '''            self._storage.tpc_abort(transaction)''')
+# ---- round 12
+breaker('C19', 'delitem-through-nested-subscript', 'C19.R2', FSIPY,
+        'fsIndex.__delitem__',
+        '''        treekey = key[:6]
+        tree = self._data.get(treekey)
+        if tree is None:
+            raise KeyError(key)
+        del tree[key[6:]]
+        if not tree:
+            del self._data[treekey]
+''', '''        try:
+            del self._data[key[:6]][key[6:]]
+        except KeyError:
+            raise KeyError(key)
+''')
+twin('C19', 'delitem-through-nested-subscript-bucket-removed', FSIPY,
+     'fsIndex.__delitem__',
+     '''        treekey = key[:6]
+        tree = self._data.get(treekey)
+        if tree is None:
+            raise KeyError(key)
+        del tree[key[6:]]
+        if not tree:
+            del self._data[treekey]
+''', '''        try:
+            del self._data[key[:6]][key[6:]]
+        except KeyError:
+            raise KeyError(key)
+        if not self._data[key[:6]]:
+            del self._data[key[:6]]
+''')
+breaker('C08', 'demo-failed-pack-keeps-the-raised-time', 'C08.R16', DSPY,
+        'DemoStorage.pack',
+        '''        except BaseException:
+            # (Also: the gc arg isn't supported.)  Nothing was packed.''',
+        '''        except TypeError:
+            # (Also: the gc arg isn't supported.)  Nothing was packed.''')
+breaker('C08', 'demo-failed-pack-restores-nothing', 'C08.R16', DSPY,
+        'DemoStorage.pack',
+        '''            with self._lock:
+                self._packed_to = previous
+            raise
+''', '''            raise
+''')
+twin('C08', 'demo-failed-pack-restores-in-finally', DSPY, 'DemoStorage.pack',
+     '''        try:
+            self.changes.pack(t, referencesf, gc=False)
+        except BaseException:
+            # (Also: the gc arg isn't supported.)  Nothing was packed.
+            with self._lock:
+                self._packed_to = previous
+            raise
+''', '''        done = False
+        try:
+            self.changes.pack(t, referencesf, gc=False)
+            done = True
+        finally:
+            if not done:
+                with self._lock:
+                    self._packed_to = previous
+''')
+breaker('C04', 'data-find-trusts-the-length', 'C04.R12', FSPY,
+        'FileStorage._data_find',
+        '''            _data = self._file.read(data_hdr.plen)
+            if data != _data:
+                return 0
+            return data_pos''',
+        '''            return data_pos''')
+breaker('C04', 'copier-data-find-trusts-the-length', 'C04.R12', PACKPY,
+        'PackCopier._data_find',
+        '''        if data != _data:
+            return 0
+        return data_pos''',
+        '''        return data_pos''')
+twin('C04', 'data-find-returns-on-equal', FSPY, 'FileStorage._data_find',
+     '''            if data != _data:
+                return 0
+            return data_pos''',
+     '''            if _data == data:
+                return data_pos
+            return 0''')
